@@ -55,8 +55,27 @@ class C06(GProp):
         return (kind == 'ok' and lx is not None and len(lx.get('rest', [])) > 0) or kind == 'err'
 
     def oracle(self, ct, it):
+        fails = self.oracle_with(ct, it, True)
+        if fails:
+            c = pfields(ct)
+            gs = sexp.dump(c['g'])
+            if 'sub' in gs and ('filterwith' in gs or 'unfiltered' in gs):
+                # the recorded C05 finding seen through the combinators: a `sub` mark reached with a look-ahead buffered
+                # does not drop the filtered tokens in front of it, which a later filter change makes visible. If the
+                # reading "sub marks do not drop" explains the result exactly, the failure belongs to that finding.
+                if not self.oracle_with(ct, it, False):
+                    return [(p, '[sub-after-lookahead] ' + w) for p, w in fails]
+        return fails
+
+    def classify(self, ct, f):
+        what = str(f.get('detail', {}).get('what', ''))
+        if f.get('kind') == 'oracle' and what.startswith('[sub-after-lookahead]'):
+            return self.id + '-sub-after-lookahead-filter-change'
+        return None
+
+    def oracle_with(self, ct, it, sub_skip):
         c = pfields(ct)
-        ref = peg.reference(c['text'], c['le'], c['tab'], c['scanner'], c['filter'], c['g'], sink=c['sink'])[0]
+        ref = peg.reference(c['text'], c['le'], c['tab'], c['scanner'], c['filter'], c['g'], sink=c['sink'], sub_skip=sub_skip)[0]
         if ref[0] == 'notcovered':
             return []
         kind, v, lx = run_result(it[1])
